@@ -89,6 +89,15 @@ func HarnessC10Map() {
 		return
 	}
 	fd2 := &descriptorpb.FileDescriptorProto{Name: out.Name, Syntax: out.Syntax, MessageType: []*descriptorpb.DescriptorProto{zzCopyMsg(out.MessageType[0])}}
+	if jn != "" {
+		// option interpretation (not executed here: reflection) is what stores a custom JSON
+		// name in the compiled descriptor; reproduce its effect on the map field
+		for _, f := range fd2.MessageType[0].Field {
+			if f.GetTypeName() != "" {
+				f.JsonName = proto.String("zz")
+			}
+		}
+	}
 	res2, err := Link(parser.ResultWithoutAST(fd2), nil, &Symbols{}, reporter.NewHandler(nil))
 	zz.Assert(err == nil, "C10/relinking-a-file-with-a-map-field-succeeds")
 	if err != nil {
